@@ -12,10 +12,11 @@ package server
 //@ pure func handlers6ok(l *listener6) bool = forall i in 0..len(l.handlers): l.handlers[i] != nil
 
 // the reply header mirrors the request (C11)
-//@ pure func mirrors4(resp *dhcpv4.DHCPv4, req *dhcpv4.DHCPv4) bool = resp.OpCode == 2 && resp.TransactionID == req.TransactionID && \
-//@     resp.HWType == req.HWType && resp.ClientHWAddr == req.ClientHWAddr && resp.Flags == req.Flags && resp.GatewayIPAddr == req.GatewayIPAddr && \
-//@     (has(resp.Options, 82) <==> has(req.Options, 82)) && resp.Options[82] == req.Options[82] && \
+//@ pure func hdr4(resp *dhcpv4.DHCPv4, req *dhcpv4.DHCPv4) bool = resp.OpCode == 2 && resp.TransactionID == req.TransactionID && \
+//@     resp.HWType == req.HWType && resp.ClientHWAddr == req.ClientHWAddr && resp.Flags == req.Flags && resp.GatewayIPAddr == req.GatewayIPAddr
+//@ pure func opts4(resp *dhcpv4.DHCPv4, req *dhcpv4.DHCPv4) bool = (has(resp.Options, 82) <==> has(req.Options, 82)) && resp.Options[82] == req.Options[82] && \
 //@     (has(resp.Options, 61) <==> has(req.Options, 61)) && resp.Options[61] == req.Options[61]
+//@ pure func mirrors4(resp *dhcpv4.DHCPv4, req *dhcpv4.DHCPv4) bool = hdr4(resp, req) && opts4(resp, req)
 // OFFER for DISCOVER, ACK for REQUEST
 //@ pure func answers4(resp *dhcpv4.DHCPv4, req *dhcpv4.DHCPv4) bool = (mtof(req.Options) == 1 && mtof(resp.Options) == 2) || (mtof(req.Options) == 3 && mtof(resp.Options) == 5)
 
@@ -32,7 +33,7 @@ package server
 //@   requires l.Interface.Index != 0 || (oob != nil && oob.IfIndex != 0)
 //@   preserves *l, elems(l.handlers), *oob
 //@   modifies everything
-//@   loop 1: invariant req != nil && valid4(req) && req.OpCode == 1 && resp != nil && valid4(resp) && resp != req
+//@   loop 1: invariant req != nil && valid4(req) && req.OpCode == 1 && resp != nil && valid4(resp) && resp != req && req.Options != resp.Options
 //@   loop 1: invariant sent == old(sent)
 //@   loop 1: invariant l.handlers == old(l.handlers)
 //@   loop 1: invariant handlers4ok(l)
@@ -69,8 +70,11 @@ package server
 //@       ((sent_cm4 != nil) <==> (ipeqh(heap8(), sent_dst.(*net.UDPAddr).IP, net.IPv4bcast) || islluh(heap8(), sent_dst.(*net.UDPAddr).IP))) && \
 //@       (sent_cm4 != nil ==> sent_cm4.IfIndex == ite(l.Interface.Index != 0, l.Interface.Index, oob.IfIndex))
 //@   ensures[C11:reply-answers-a-request] sent == old(sent) + 1 ==> (req != nil && req.OpCode == 1 && (mtof(req.Options) == 1 || mtof(req.Options) == 3))
-//@   ensures[C11:reply-mirrors-request] (sent == old(sent) + 1 && !sent_l2) ==> (pktof(sent_b) != nil && mirrors4(pktof(sent_b), req) && answers4(pktof(sent_b), req))
-//@   ensures[C11:reply-mirrors-request] (sent == old(sent) + 1 && sent_l2) ==> (sent_l2_resp != nil && mirrors4(sent_l2_resp, req) && answers4(sent_l2_resp, req))
+//@   ensures[C11:reply-is-the-handlers-response] (sent == old(sent) + 1 && !sent_l2) ==> pktof(sent_b) == resp
+//@   ensures[C11:reply-is-the-handlers-response] (sent == old(sent) + 1 && sent_l2) ==> sent_l2_resp == resp
+//@   ensures[C11:reply-mirrors-request-header] sent == old(sent) + 1 ==> (resp != nil && hdr4(resp, req))
+//@   ensures[C11:reply-echoes-relay-and-client-id-options] sent == old(sent) + 1 ==> opts4(resp, req)
+//@   ensures[C11:offer-for-discover-ack-for-request] sent == old(sent) + 1 ==> answers4(resp, req)
 
 // ---------------------------------------------------------------------------
 // DHCPv6
